@@ -307,7 +307,7 @@ def gen_let(rng, nv):
         return []
     stmts, defined = [], []
     for k in range(rng.choice([1, 1, 2])):
-        v = 10 + k if rng.random() < 0.9 else rng.randrange(nv)      # rarely redefines a body variable
+        v = 10 + k      # never a variable of the body or a use of itself (N64)
         src = rng.choice(defined) if defined and rng.random() < 0.4 else rng.randrange(nv + (1 if rng.random() < 0.05 else 0))
         stmts.append([v, dc.app(rng.choice(["plus", "mult"]), dc.var(src), n(rng.randint(1, 2)))])
         defined.append(v)
@@ -455,7 +455,7 @@ def probes(ck):
             continue
         o = ck.run_go("c04", [go_case(case)])[0].get("out")
         if o and o["stage"] == "ok" and o["err"] == "eval":
-            ck.known(what + dc.clause_text(case["clause"]) + " -> " + o["emsg"][:80])
+            ck.known(what + dc.clause_text(case["clause"]) + " -> " + o.get("emsg", "")[:80])
 
 
 # ----------------------------------------------------------------- the check
@@ -463,12 +463,15 @@ def classify_go(case, o):
     """Property verdict on Go's own output (no model involved). Returns None or a text."""
     if o["stage"] != "ok":
         return None
+    if sorted(o["perm"]) != list(range(o["nprem"])):
+        return "accepted by analysis, but the rule handed to the engine is not a permutation of the rule as written " \
+               "(a literal was dropped, duplicated or invented): " + str(o.get("rule"))
     if o["err"] == "panic":
-        return "accepted by analysis, evaluation panics: " + o["emsg"][:200]
+        return "accepted by analysis, evaluation panics: " + o.get("emsg", "")[:200]
     if o["nonground"]:
         return "accepted by analysis, a non-ground atom was stored: %s" % o["nonground"][:3]
-    if o["err"] == "eval" and any(s in o["emsg"] for s in UNBOUND_PAT):
-        return "accepted by analysis, evaluation fails for lack of a value: " + o["emsg"][:200]
+    if o["err"] == "eval" and any(s in o.get("emsg", "") for s in UNBOUND_PAT):
+        return "accepted by analysis, evaluation fails for lack of a value: " + o.get("emsg", "")[:200]
     if o["err"]:
         return None
     want = oracle(case)
@@ -523,7 +526,7 @@ def run(ck):
             if nviol < 5:
                 nviol += 1
                 ck.violation({"property": "C04", "kind": why, "program": source(c), "case": c,
-                              "rewritten_rule": o.get("rule"), "impl": {k: o[k] for k in ("err", "emsg", "facts", "nonground")},
+                              "rewritten_rule": o.get("rule"), "impl": {k: o.get(k) for k in ("err", "emsg", "facts", "nonground")},
                               "impl_facts": dc.canon(dc.facts_from_go(o["facts"])) if not o["err"] else None,
                               "declarative_facts": oracle(c)})
         terms.append(cq_case(c, o))
